@@ -563,35 +563,57 @@ def ModelCreator(
 def _check_model_params(init_func, model_params):
     """Check if model parameters are valid for the model's initialization function.
 
+    The parameters are valid if ``init_func(instance, **model_params)`` can be called.
+
     Args:
-        init_func: Model initialization function
+        init_func: Model initialization function (the unbound ``__init__``)
         model_params: Dictionary of model parameters
 
     Raises:
         ValueError: If a parameter is not valid for the model's initialization function
     """
-    model_parameters = inspect.signature(init_func).parameters
+    kind = inspect.Parameter
+    parameters = list(inspect.signature(init_func).parameters.values())
 
-    has_var_positional = any(
-        param.kind == inspect.Parameter.VAR_POSITIONAL
-        for param in model_parameters.values()
-    )
+    has_var_positional = any(param.kind == kind.VAR_POSITIONAL for param in parameters)
 
     if has_var_positional:
         raise ValueError(
             "Mesa's visualization requires the use of keyword arguments to ensure the parameters are passed to Solara correctly. Please ensure all model parameters are of form param=value"
         )
 
-    for name in model_parameters:
-        if (
-            model_parameters[name].default == inspect.Parameter.empty
-            and name not in model_params
-            and name != "self"
-            and name != "kwargs"
-        ):
-            raise ValueError(f"Missing required model parameter: {name}")
+    # the first parameter (usually called self) receives the model instance
+    if not parameters or parameters[0].kind not in (
+        kind.POSITIONAL_ONLY,
+        kind.POSITIONAL_OR_KEYWORD,
+    ):
+        raise ValueError(
+            "The model initialization function has no parameter for the model instance"
+        )
+    instance, *parameters = parameters
+
+    # parameters are recognised by their kind, not by their name
+    has_var_keyword = any(param.kind == kind.VAR_KEYWORD for param in parameters)
+    keyword_names = {
+        param.name
+        for param in parameters
+        if param.kind in (kind.POSITIONAL_OR_KEYWORD, kind.KEYWORD_ONLY)
+    }
+
+    for param in parameters:
+        if param.kind == kind.VAR_KEYWORD or param.default is not kind.empty:
+            continue
+        if param.kind == kind.POSITIONAL_ONLY:
+            raise ValueError(
+                f"Model parameter {param.name} is positional-only and cannot be passed by keyword"
+            )
+        if param.name not in model_params:
+            raise ValueError(f"Missing required model parameter: {param.name}")
     for name in model_params:
-        if name not in model_parameters and "kwargs" not in model_parameters:
+        is_instance = (
+            instance.kind == kind.POSITIONAL_OR_KEYWORD and name == instance.name
+        )
+        if is_instance or (name not in keyword_names and not has_var_keyword):
             raise ValueError(f"Invalid model parameter: {name}")
 
 
